@@ -52,7 +52,7 @@ def errClass {α : Type} : Except Err α → Option Err
     * returns a PDU, and then every parameter was supplied with a representable value, and — unless the
       encoder reported overlapping objects — strict `Request.decode` of that PDU returns exactly the
       supplied values, parameter by parameter. -/
-theorem C04_flat (os : List Obj) (hlen : os.length ≤ 4000) (hok : ∀ o ∈ os, o.ok)
+theorem C04_flat (os : List Obj) (hlen : os.length ≤ 4000) (hok : ∀ o ∈ os, o.ok ∧ o.isInt)
     (values : List (String × PVal)) (trig : Option Bytes) :
     (∃ e, encodeMessage none (os.map Obj.toParam) (.dict values) trig true = .error e ∧ (e = .encode ∨ e = .odx)) ∨
     ∃ (vs : List IVal) (pdu : Bytes) (w : Nat), vs.length = os.length ∧
@@ -81,9 +81,9 @@ theorem C04_flat (os : List Obj) (hlen : os.length ≤ 4000) (hok : ∀ o ∈ os
     rw [hzip] at hov
     obtain ⟨o, ho, rfl⟩ := List.mem_map.mp hov
     obtain ⟨v, hv⟩ := hgood o ho
-    obtain ⟨h1, h2⟩ := Obj.pick_some values o (hok o ho) v hv
+    obtain ⟨h1, h2⟩ := Obj.pick_some values o (hok o ho).1 v hv
     simp only [hv, Option.getD_some]
-    exact ⟨⟨hok o ho, h2⟩, h1⟩
+    exact ⟨⟨(hok o ho).1, h2⟩, h1⟩
   have hlen' : (os.zip vs).length ≤ 4000 := by rw [hzip]; simpa using hlen
   have hknown' : values.any (fun kv => !(((os.zip vs).map fun ov => ov.1.toParam).any fun p => p.name == kv.1)) = false := by
     rw [hmap1]; exact hknown
